@@ -8,7 +8,49 @@ def cfunFuel (ls : List Bytes) : Nat := 4 * (ls.foldl (fun a b => a + b.length) 
 
 def showOpt (r : Option String) : String := r.getD "undef"
 
+/-- the fields of htp_list_array_t as the translated list functions take and return them -/
+structure LSt where
+  first : Int := 0
+  last : Int := 0
+  max : Int := 0
+  cur : Int := 0
+  elems : List Int := []
+
+def listStep (l : LSt) (op : String) : Option (LSt × String) :=
+  let arg := (op.drop 1).toString
+  match op.front with
+  | 'p' => arg.toNat?.bind fun v =>
+      (htp_list_array_push 4 (l_elements := l.elems) (e := v) (l_last := l.last) (l_max_size := l.max) (l_current_size := l.cur) (l_first := l.first) (alloc_ok := 1)).map fun r =>
+        ({ first := r.2.l_first, last := r.2.l_last, max := r.2.l_max_size, cur := r.2.l_current_size, elems := r.2.l_elements }, toString r.1)
+  | 'o' => (htp_list_array_pop 4 (l_elements := l.elems) (l_current_size := l.cur) (l_first := l.first) (l_max_size := l.max) (l_last := l.last)).map fun r =>
+      ({ l with last := r.2.l_last, cur := r.2.l_current_size }, toString r.1)
+  | 's' => (htp_list_array_shift 4 (l_elements := l.elems) (l_current_size := l.cur) (l_first := l.first) (l_max_size := l.max)).map fun r =>
+      ({ l with first := r.2.l_first, cur := r.2.l_current_size }, toString r.1)
+  | 'g' => arg.toNat?.bind fun i => (htp_list_array_get 4 (l_elements := l.elems) (idx := i) (l_current_size := l.cur) (l_first := l.first) (l_max_size := l.max)).map fun r => (l, toString r.1)
+  | 'r' => match arg.splitOn ":" with
+    | [i, v] => i.toNat?.bind fun i => v.toNat?.bind fun v =>
+        (htp_list_array_replace 4 (l_elements := l.elems) (idx := i) (e := v) (l_first := l.first) (l_max_size := l.max) (l_current_size := l.cur)).map fun r => ({ l with elems := r.2.l_elements }, toString r.1)
+    | _ => none
+  | 'z' => (htp_list_array_size 4 (l_current_size := l.cur)).map fun r => (l, toString r.1)
+  | 'c' => (htp_list_array_clear 4 (l_first := l.first) (l_last := l.last) (l_current_size := l.cur)).map fun r =>
+      ({ l with first := r.2.l_first, last := r.2.l_last, cur := r.2.l_current_size }, "0")
+  | _ => none
+
+def listRun (cap : Nat) (ops : List String) : String :=
+  let rec go (l : LSt) (ops : List String) (acc : String) : String :=
+    match ops with
+    | [] =>
+      let used := (List.range l.cur.toNat).map fun i => l.elems.getD ((l.first.toNat + i) % l.max.toNat) 0
+      acc ++ s!" {l.first} {l.last} {l.max} {l.cur} [" ++ " ".intercalate (used.map toString) ++ "]"
+    | o :: rest => match listStep l o with
+      | some (l', out) => go l' rest (acc ++ out ++ ",")
+      | none => acc ++ "undef"
+  go { max := cap, elems := List.replicate cap 0 } ops ""
+
 def cfunOp : List String → String
+  | ["list", cap, ops] => match cap.toNat? with
+    | some k => if k == 0 then "bad-op" else listRun k (ops.splitOn ",")
+    | none => "bad-op"
   | ["htp_is_lws", c] => match c.toInt? with
     | some x => showOpt ((htp_is_lws 4 x).map fun r => toString r.1)
     | none => "bad-op"
